@@ -51,8 +51,8 @@ def main():
                  "answer to a finite matrix as an error, and probe the ends of the dtype's range (C03, C04, C09, C18), "
                  "clustered rows and model-sized column counts (C08, C10, C17). Autojac checks observe that the "
                  "aggregator is applied once to the exact Jacobian (correspondence with the model), build every third "
-                 "leaf of rank >= 2 column-major, and use heads with aliased gradient objects. 200 seeded changes "
-                 "(seeded/, ten rounds by fresh sub-agents, index in seeded/INDEX.md) and fourteen behaviour-preserving change sets (benign/) "
+                 "leaf of rank >= 2 column-major, and use heads with aliased gradient objects. 210 seeded changes "
+                 "(seeded/, eleven rounds by fresh sub-agents, index in seeded/INDEX.md) and fourteen behaviour-preserving change sets (benign/) "
                  "document what the quick checks catch and that they stay silent on harmless rewrites (DESIGN.md 15.4-15.11).",
     }
     schema = json.load(open("/root/.vp/MANIFEST.schema.json"))
